@@ -1,9 +1,10 @@
 (* C16 - feeds terminate cleanly and independently. Property theorems only; proofs in Life.v. *)
 From Rosmar Require Import Base Life.
 
-(* once a feed has ended it stays ended and its callback receives nothing more, whatever happens next *)
-Theorem C16_ended_is_final : forall s o f x, alookup Nat.eqb f (ls_feeds s) = Some x -> lf_ended x = true ->
-  NoDup (map fst (ls_feeds s)) ->
+(* once a feed has ended it stays ended and its callback receives nothing more, whatever happens next
+   (feed_wf - a feed whose done channel is closed has no blocked consumer - holds in every reachable state:
+   C16_wf_reachable) *)
+Theorem C16_ended_is_final : forall s o f x, alookup Nat.eqb f (ls_feeds s) = Some x -> lf_ended x = true -> feed_wf x ->
   match alookup Nat.eqb f (ls_feeds (fst (lstep s o))) with
   | Some x' => lf_ended x' = true /\ lf_got x' = lf_got x
   | None => False
@@ -11,9 +12,25 @@ Theorem C16_ended_is_final : forall s o f x, alookup Nat.eqb f (ls_feeds s) = So
 Proof. exact ended_is_final. Qed.
 Print Assumptions C16_ended_is_final.
 
+Theorem C16_wf_reachable : forall inmem ops, lwf (fold_left (fun s o => fst (lstep s o)) ops (lstate0 inmem)).
+Proof. exact reachable_wf. Qed.
+Print Assumptions C16_wf_reachable.
+
+(* a feed ended while its consumer is blocked in the callback: what was queued behind it is never delivered,
+   whatever happens next, and the done channel is closed when the consumer returns *)
+Theorem C16_queued_never_delivered : forall s o f x p,
+  alookup Nat.eqb f (ls_feeds s) = Some x -> lf_ended x = false -> lf_gate x = GHold p true ->
+  match alookup Nat.eqb f (ls_feeds (fst (lstep s o))) with
+  | Some x' => lf_got x' = lf_got x
+               /\ ((lf_ended x' = false /\ lf_gate x' = GHold p true) \/ (lf_ended x' = true /\ lf_gate x' = GOpen /\ o = LRelease f))
+  | None => False
+  end.
+Proof. exact queued_never_delivered. Qed.
+Print Assumptions C16_queued_never_delivered.
+
 (* ending another feed, dropping another collection, or closing a handle that is not the last one of an
-   on-disk bucket never ends a running feed *)
-Theorem C16_independent : forall s o g y, alookup Nat.eqb g (ls_feeds s) = Some y -> lf_ended y = false ->
+   on-disk bucket never ends a running feed, nor marks it for ending *)
+Theorem C16_independent : forall s o g y, alookup Nat.eqb g (ls_feeds s) = Some y -> running y ->
   match o with
   | LTerm f => f <> g
   | LDrop _ c => c <> lf_coll y
@@ -22,7 +39,7 @@ Theorem C16_independent : forall s o g y, alookup Nat.eqb g (ls_feeds s) = Some 
   | _ => True
   end ->
   match alookup Nat.eqb g (ls_feeds (fst (lstep s o))) with
-  | Some y' => lf_ended y' = false
+  | Some y' => running y'
   | None => False
   end.
 Proof. exact others_keep_running. Qed.
